@@ -275,6 +275,9 @@ def drv_thm_iw(ph, w, a, st):
 
     rng = np.random.Generator(np.random.PCG64(st["seed"] & 0xFFFFFFFF))
     rec = np.linalg.inv(ph.primitive.cell)
+    # one process may serve several lattices: two unrelated ones first (their main diagonals differ), then this run's
+    for other in ([[1.0, 0.6, 0.0], [0.0, 1.0, 0.6], [0.6, 0.0, 1.0]], [[1.0, -0.6, 0.0], [0.0, 1.0, -0.6], [-0.6, 0.0, 1.0]]):
+        TetrahedronMethod(np.array(other), mesh=[2, 2, 2], lang=st.get("lang", "C"))
     thm = TetrahedronMethod(rec, mesh=_mesh_for_dos(a), lang=st.get("lang", "C"))
     # vertex values from one smooth function on the grid, evaluated at each implementation's own relative grid
     # addresses (the C and Python versions order the 24 tetrahedra differently)
